@@ -306,6 +306,7 @@ func runC09(c *Check, a *Analysis) {
 	ruleStreamSeqAssigned(c, a, "R-STREAM-SEQ")
 	ruleStreamQueue(c, a, "R-STREAM-QUEUE")
 	ruleStreamEvent(c, a, "R-STREAM-EVENT")
+	ruleStreamFreshValue(c, a, "R-STREAM-FRESH-VALUE")
 	ruleStreamWrite(c, a, "R-STREAM-WRITE")
 	c.Rule("R-LOCK", "stream.events only under stream.mut", 3)
 	ruleLock(c, a, "R-LOCK", "stream", "events")
@@ -422,6 +423,7 @@ func runC10(c *Check, a *Analysis) {
 	sc := siteCounter{}
 	ruleLockBalance(c, a, "R-LOCK-BALANCE", "stream.mut", "Conn.mutex", "Server.mutex")
 	ruleStreamCond(c, a, "R-STREAM-COND")
+	ruleSweepKeepsStreams(c, a, "R-SWEEP-KEEPS-STREAMS")
 	rulePollEOF(c, a, "R-POLL-EOF")
 	ruleSchedNil(c, a, "R-SCHED-NIL")
 	ruleStreamQueue(c, a, "R-STREAM-QUEUE")
